@@ -115,8 +115,11 @@ class DiameterAssociation(object):
 
 
     def is_connected(self) -> bool:
-        if self.transport:
-           return self.transport.is_connected
+        #: close() resets self.transport from another thread: work on the 
+        #: reference taken here.
+        transport = self.transport
+        if transport:
+           return transport.is_connected
         
         return False
 
